@@ -7,7 +7,9 @@
 (* strings and numbers, dictionary key order, object order, cross-reference *)
 (* table sectioning and entry line ends, cross-reference streams with       *)
 (* several W/Index layouts, direct or indirect stream Length, stream        *)
-(* keyword line ends, bytes before the header, trailing line ends.          *)
+(* keyword line ends, bytes before the header, trailing line ends, free     *)
+(* entries (objects deleted by an update, the free list linked or not) and  *)
+(* hybrid-reference sections (table + XRefStm stream for hidden objects).   *)
 (*                                                                          *)
 (* The Producer emits bytes into `out` by consuming a work stack `todo`.     *)
 (* MC_Syntax checks that whatever it emits is read back by the StrictReader *)
@@ -22,10 +24,20 @@ CONSTANT SepMode    \* "all" | "few" | "min": which separators the Producer may 
 Seps == SepsOf(SepMode)
 NonEmptySeps == Seps \ {<<>>}
 
+\* the small lexical choice sets of the file-level actions, named so that an exhaustive configuration can pin them
+\* (MC_FileBeyond replaces each by a singleton)
+DictOrders == BOOLEAN                                   \* keys in ascending or descending order
+StreamKwEOLs == {<<10>>, <<13, 10>>}                    \* after the keyword stream (7.3.8.1)
+StreamEndEOLs == EOLs \cup {<<>>}                       \* before the keyword endstream
+EntryEOLs == {<<32, 10>>, <<32, 13>>, <<13, 10>>}       \* the last two bytes of a 20-byte cross-reference entry
+MemberHdrSeps == {<<32>>, <<10>>, <<13, 10>>}           \* after each "number offset" pair of an object stream
+ObjStmTails == {<<>>, <<10>>}                           \* after the last member of an object stream
+FinalEOLs == EOLs \cup {<<>>}                           \* after %%EOF
+
 VARIABLES out,      \* bytes emitted so far
           todo,     \* work stack (sequence, head first)
           offs,     \* objects written in the current revision: number -> [off, gen] (offset of "n g obj" relative to %PDF-)
-          plan,     \* the file being produced: [doc, k (knobs), ri (revision), xrefoff, prevxref, cuts]
+          plan,     \* the file being produced: [doc, k (knobs), ri (revision), xrefoff, prevxref, cuts, stmoff]
           outer,    \* while an object-stream body is being produced: the file bytes emitted before it
           moffs     \* ... and the offsets of its members so far, <<[num, off]>>
 
@@ -78,7 +90,7 @@ XArr  == IsVal("arr")  /\ todo' = <<TokN(<<91>>, Top1.ns)>> \o [i \in 1..Len(Top
 
 DictItems(d, keys) == Concat([i \in 1..Len(keys) |-> <<Val(OName(keys[i])), Val(d[keys[i]])>>])
 
-XDict == IsVal("dict") /\ \E rev \in BOOLEAN :
+XDict == IsVal("dict") /\ \E rev \in DictOrders :
                             LET keys == IF rev THEN Reverse(SetToSeq(DOMAIN Top1.v.v)) ELSE SetToSeq(DOMAIN Top1.v.v)
                             IN todo' = <<TokN(<<60, 60>>, Top1.ns)>> \o DictItems(Top1.v.v, keys) \o <<Tok(<<62, 62>>)>> \o Rest
                        /\ UNCHANGED <<out, offs, plan, outer, moffs>>
@@ -94,12 +106,27 @@ ObjectNext == EmitTok \/ EmitRaw \/ XNull \/ XBool \/ XInt \/ XReal \/ XName \/ 
 (* comp lists object streams: their members are written inside an ObjStm when the file uses      *)
 (* cross-reference streams, and as ordinary objects when it uses cross-reference tables.         *)
 (* plan.k = knobs [order, xref \in {"table1","tableN","stream1","streamN"}, w, junk, junkbytes,  *)
-(*                 bin, slack, noindex]                                                          *)
+(*                 bin, slack, noindex, ...]                                                     *)
+(* A revision may carry  free |-> <<[num, gen]>>  (Revisions): its cross-reference section marks  *)
+(* these numbers free - `f` entries of a table, type-0 rows of a stream.  Knob flink: "zero" =    *)
+(* only the numbers the revision frees are listed, every link field is 0; "chain" = the section   *)
+(* lists object 0 and every number that is free after it as the linked list of 7.5.4 (ascending,  *)
+(* the last entry links back to 0).                                                               *)
+(* Knob hybrid = the set of revisions laid out as hybrid-reference sections (7.5.8.4; table       *)
+(* styles only): their comp members are written into real object streams, a cross-reference        *)
+(* stream in the body lists them (type 2), the trailer of the table names it with XRefStm.         *)
+(* hycont / hyself \in {"stm", "intable"}: whether the object streams / the cross-reference stream   *)
+(* itself are listed (type 1) in that stream - hidden from a reader of tables - or in the table;   *)
+(* hymark \in {"free", "unlisted"}: whether the table carries `f` entries for the hidden numbers.    *)
 
 Doc == plan.doc
 K == plan.k
 Cur == Doc.revs[plan.ri]
 UseComp(k) == k.xref \in {"stream1", "streamN"}
+\* knob values of a file without free-list chaining and without hybrid-reference sections
+PlainKnobs == [hybrid |-> {}, hycont |-> "stm", hyself |-> "stm", hymark |-> "free", flink |-> "zero"]
+HybHere == plan.ri \in K.hybrid                       \* the current revision is a hybrid-reference section
+CompHere == UseComp(K) \/ HybHere                     \* ... its comp members live in object streams
 
 \* every object number mentioned anywhere in the document (fresh numbers are taken above it)
 AllNums(doc) ==
@@ -145,7 +172,7 @@ ObjHdr ==
 \* "stream" EOL data [EOL] "endstream"   (7.3.8.1: CRLF or LF after the keyword)
 StreamData ==
     /\ todo # <<>> /\ Top1.w = "streamdata"
-    /\ \E sep \in Seps, e1 \in {<<10>>, <<13, 10>>}, e2 \in EOLs \cup {<<>>} :
+    /\ \E sep \in Seps, e1 \in StreamKwEOLs, e2 \in StreamEndEOLs :
           /\ (NeedSep(out, KwStream) => sep # <<>>)
           /\ out' = out \o sep \o KwStream \o e1 \o Top1.c \o e2 \o KwEndstream
     /\ todo' = Rest /\ UNCHANGED <<offs, plan, outer, moffs>>
@@ -205,7 +232,7 @@ CMember ==
 \* the order in which the containers are processed.
 CEnd ==
     /\ todo # <<>> /\ Top1.w = "cend"
-    /\ \E hs \in {<<32>>, <<10>>, <<13, 10>>}, tail \in {<<>>, <<10>>} :
+    /\ \E hs \in MemberHdrSeps, tail \in ObjStmTails :
           LET header == Concat([i \in 1..Len(moffs) |-> AsciiDigits(moffs[i].num) \o <<32>> \o AsciiDigits(moffs[i].off) \o hs])
               content == header \o out \o tail
               d == (NameType :> OName(NameObjStm)) @@ (NameN :> NatObj(Len(moffs))) @@ (NameFirst :> NatObj(Len(header)))
@@ -234,14 +261,50 @@ Runs(S) ==
 
 First == plan.ri = 1
 
+\* free entries of a revision (optional field, see Revisions)
+FreeOf(rev) == IF "free" \in DOMAIN rev THEN rev.free ELSE <<>>
+FreeNumsOf(rev) == {FreeOf(rev)[i].num : i \in 1..Len(FreeOf(rev))}
+DefNumsOf(rev) ==
+    {rev.objs[i].num : i \in 1..Len(rev.objs)}
+    \cup UNION {{rev.comp[c].members[m].num : m \in 1..Len(rev.comp[c].members)} : c \in 1..Len(rev.comp)}
+\* numbers that are free after revision r -> the generation their newest free entry records
+FreeAfter(doc, r) ==
+    LET cand == UNION {FreeNumsOf(doc.revs[q]) : q \in 1..r}
+        lastq(n) == CHOOSE q \in 1..r : n \in FreeNumsOf(doc.revs[q]) /\ \A p \in (q + 1)..r : n \notin FreeNumsOf(doc.revs[p])
+        still == {n \in cand : \A p \in (lastq(n) + 1)..r : n \notin DefNumsOf(doc.revs[p])}
+    IN [n \in still |-> LET f == FreeOf(doc.revs[lastq(n)]) IN f[CHOOSE i \in 1..Len(f) : f[i].num = n].gen]
+\* what the section of the current revision lists as free besides gaps and hidden objects: num -> [next, gen]
+FreeListed ==
+    IF First \/ \A q \in 1..plan.ri : FreeOf(Doc.revs[q]) = <<>> THEN EmptyMap
+    ELSE IF K.flink = "zero"
+    THEN [n \in FreeNumsOf(Cur) |-> [next |-> 0, gen |-> FreeAfter(Doc, plan.ri)[n]]]
+    ELSE LET fa == FreeAfter(Doc, plan.ri)
+             sq == <<0>> \o SortSeq(SetToSeq(DOMAIN fa), LAMBDA a, b : a < b)
+         IN [n \in DOMAIN fa \cup {0} |->
+                LET i == CHOOSE j \in 1..Len(sq) : sq[j] = n
+                IN [next |-> IF i = Len(sq) THEN 0 ELSE sq[i + 1], gen |-> IF n = 0 THEN 65535 ELSE fa[n]]]
+
+\* hybrid-reference section: directly stored objects that only the XRefStm stream lists, all hidden numbers
+HiddenPlain ==
+    IF ~HybHere THEN {}
+    ELSE (IF K.hycont = "stm" THEN {Cur.comp[c].cnum : c \in 1..Len(Cur.comp)} ELSE {})
+         \cup (IF K.hyself = "stm" THEN {SelfNum(Doc, plan.ri)} ELSE {})
+HiddenNums ==
+    IF ~HybHere THEN {}
+    ELSE HiddenPlain \cup UNION {{Cur.comp[c].members[m].num : m \in 1..Len(Cur.comp[c].members)} : c \in 1..Len(Cur.comp)}
+
 XrefTable ==
     /\ todo # <<>> /\ Top1.w = "xreftable"
-    /\ \E e0 \in EOLs, e1 \in EOLs, ee \in {<<32, 10>>, <<32, 13>>, <<13, 10>>} :
-          LET entry(n) == IF n \in Nums THEN Entry(offs[n].off, offs[n].gen, TRUE, ee)
-                          ELSE Entry(0, IF n = 0 THEN 65535 ELSE 0, FALSE, ee)
-              one == AsciiDigits(0) \o <<32>> \o AsciiDigits(MaxNum + 1) \o e1 \o
-                     Concat([n \in 1..(MaxNum + 1) |-> entry(n - 1)])
-              runs == Runs(IF First THEN Nums \cup {0} ELSE Nums)
+    /\ \E e0 \in EOLs, e1 \in EOLs, ee \in EntryEOLs :
+          \E fl \in {FreeListed}, tab \in {Nums \ HiddenPlain}, marked \in {IF HybHere /\ K.hymark = "free" THEN HiddenNums ELSE {}} :
+          LET entry(n) == IF n \in tab THEN Entry(offs[n].off, offs[n].gen, TRUE, ee)
+                          ELSE IF n \in DOMAIN fl THEN Entry(fl[n].next, fl[n].gen, FALSE, ee)
+                          ELSE Entry(0, IF n = 0 \/ n \in marked THEN 65535 ELSE 0, FALSE, ee)
+              maxtab == IF tab \cup marked = {} THEN 0 ELSE CHOOSE n \in tab \cup marked : \A m \in tab \cup marked : m <= n
+              one == AsciiDigits(0) \o <<32>> \o AsciiDigits(maxtab + 1) \o e1 \o
+                     Concat([n \in 1..(maxtab + 1) |-> entry(n - 1)])
+              listed == (IF First THEN tab \cup {0} ELSE tab) \cup DOMAIN fl \cup marked
+              runs == Runs(IF listed = {} THEN {0} ELSE listed)
               many == Concat([r \in 1..Len(runs) |->
                          AsciiDigits(runs[r][1]) \o <<32>> \o AsciiDigits(runs[r][2]) \o e1 \o
                          Concat([j \in 1..runs[r][2] |-> entry(runs[r][1] + j - 1)])])
@@ -256,11 +319,20 @@ XrefStart ==
           /\ plan' = [plan EXCEPT !.xrefoff = Len(out \o sep) - K.junk]
     /\ todo' = Rest /\ UNCHANGED <<offs, outer, moffs>>
 
+\* ... and where the cross-reference stream of a hybrid-reference section starts (the trailer's XRefStm)
+StmStart ==
+    /\ todo # <<>> /\ Top1.w = "markstm"
+    /\ \E sep \in NonEmptySeps :
+          /\ out' = out \o sep
+          /\ plan' = [plan EXCEPT !.stmoff = Len(out \o sep) - K.junk]
+    /\ todo' = Rest /\ UNCHANGED <<offs, outer, moffs>>
+
 SizeVal == MaxAll(Doc) + Len(Doc.revs) + 1 + K.slack
 
 TrailerOf(r) ==
     LET t0 == MapPut(Doc.revs[r].trailer, NameSize, NatObj(SizeVal))
-    IN IF r = 1 THEN t0 ELSE MapPut(t0, NamePrev, NatObj(plan.prevxref))
+        t1 == IF r = 1 THEN t0 ELSE MapPut(t0, NamePrev, NatObj(plan.prevxref))
+    IN IF r \in K.hybrid THEN MapPut(t1, NameXRefStm, NatObj(plan.stmoff)) ELSE t1
 
 TrailerItems ==
     /\ todo # <<>> /\ Top1.w = "trailer"
@@ -269,7 +341,7 @@ TrailerItems ==
 
 StartXref ==
     /\ todo # <<>> /\ Top1.w = "startxref"
-    /\ \E sep \in NonEmptySeps, e1 \in EOLs, e2 \in EOLs, fin \in EOLs \cup {<<>>} :
+    /\ \E sep \in NonEmptySeps, e1 \in EOLs, e2 \in EOLs, fin \in FinalEOLs :
           \* %%EOF is a comment: an update appended after it must start on a new line
           /\ (plan.ri < Len(Doc.revs) => fin # <<>>)
           /\ out' = out \o sep \o KwStartxref \o e1 \o AsciiDigits(plan.xrefoff) \o e2 \o PctPctEOF \o fin
@@ -281,19 +353,21 @@ BE(x, n) == [i \in 1..n |-> IF n - i >= 4 THEN 0 ELSE (x \div (256 ^ (n - i))) %
 
 \* members of the object streams of the current revision: <<[num, cnum, idx]>>
 CompEntries ==
-    IF ~UseComp(K) THEN <<>>
+    IF ~CompHere THEN <<>>
     ELSE Concat([c \in 1..Len(Cur.comp) |->
             [m \in 1..Len(Cur.comp[c].members) |-> [num |-> Cur.comp[c].members[m].num, cnum |-> Cur.comp[c].cnum, idx |-> m - 1]]])
 
 \* the XRef stream object (7.5.8): objects of this revision, compressed members, itself; rows per K.w
 XrefStreamObj ==
     /\ todo # <<>> /\ Top1.w = "xrefstream"
-    /\ LET self == SelfNum(Doc, plan.ri)
+    /\ \E fl \in {FreeListed} :
+       LET self == SelfNum(Doc, plan.ri)
            w == K.w
            ce == CompEntries
            cnums == {ce[i].num : i \in 1..Len(ce)}
-           all == Nums \cup {self} \cup cnums \cup (IF w[1] = 0 \/ ~First THEN {} ELSE {0})
-           row(n) == IF n = 0 THEN BE(0, w[1]) \o BE(0, w[2]) \o BE(IF w[3] >= 2 THEN 65535 ELSE 0, w[3])
+           all == Nums \cup {self} \cup cnums \cup (IF w[1] = 0 \/ ~First THEN {} ELSE {0}) \cup DOMAIN fl
+           row(n) == IF n \in DOMAIN fl THEN BE(0, w[1]) \o BE(fl[n].next, w[2]) \o BE(IF n = 0 /\ w[3] < 2 THEN 0 ELSE fl[n].gen, w[3])
+                     ELSE IF n = 0 THEN BE(0, w[1]) \o BE(0, w[2]) \o BE(IF w[3] >= 2 THEN 65535 ELSE 0, w[3])
                      ELSE IF n = self THEN BE(1, w[1]) \o BE(plan.xrefoff, w[2]) \o BE(0, w[3])
                      ELSE IF n \in cnums
                           THEN LET e == ce[SelectInSeq(ce, LAMBDA x : x.num = n)] IN BE(2, w[1]) \o BE(e.cnum, w[2]) \o BE(e.idx, w[3])
@@ -307,13 +381,36 @@ XrefStreamObj ==
            d0 == MapPut(MapPut(TrailerOf(plan.ri), NameType, OName(NameXRef)),
                         NameW, OArr(<<NatObj(w[1]), NatObj(w[2]), NatObj(w[3])>>))
            d1 == IF runs = <<<<0, SizeVal>>>> /\ K.noindex THEN d0 ELSE MapPut(d0, NameIndex, index)
-           fl == FilterStruct(data, w[1] + w[2] + w[3], d1)
-           items == ObjItems([num |-> self, gen |-> 0, val |-> OStream(fl.d, fl.data)], 0)
+           fl2 == FilterStruct(data, w[1] + w[2] + w[3], d1)
+           items == ObjItems([num |-> self, gen |-> 0, val |-> OStream(fl2.d, fl2.data)], 0)
+       IN todo' = <<[items[1] EXCEPT !.nosep = TRUE]>> \o Tail(items) \o Rest
+    /\ UNCHANGED <<out, offs, plan, outer, moffs>>
+
+\* the cross-reference stream of a hybrid-reference section (7.5.8.4): type-2 rows for the members of this
+\* revision's object streams, type-1 rows for the directly stored objects that are hidden from the table
+XRefStmObj ==
+    /\ todo # <<>> /\ Top1.w = "xrefstm"
+    /\ LET self == SelfNum(Doc, plan.ri)
+           w == K.w
+           ce == CompEntries
+           cnums == {ce[i].num : i \in 1..Len(ce)}
+           all == HiddenPlain \cup cnums
+           row(n) == IF n = self THEN BE(1, w[1]) \o BE(plan.stmoff, w[2]) \o BE(0, w[3])
+                     ELSE IF n \in cnums
+                          THEN LET e == ce[SelectInSeq(ce, LAMBDA x : x.num = n)] IN BE(2, w[1]) \o BE(e.cnum, w[2]) \o BE(e.idx, w[3])
+                     ELSE BE(1, w[1]) \o BE(offs[n].off, w[2]) \o BE(offs[n].gen, w[3])
+           runs == Runs(all)
+           data == Concat([r \in 1..Len(runs) |-> Concat([j \in 1..runs[r][2] |-> row(runs[r][1] + j - 1)])])
+           index == OArr(Concat([r \in 1..Len(runs) |-> <<NatObj(runs[r][1]), NatObj(runs[r][2])>>]))
+           d1 == (NameType :> OName(NameXRef)) @@ (NameSize :> NatObj(SizeVal))
+                 @@ (NameW :> OArr(<<NatObj(w[1]), NatObj(w[2]), NatObj(w[3])>>)) @@ (NameIndex :> index)
+           fl2 == FilterStruct(data, w[1] + w[2] + w[3], d1)
+           items == ObjItems([num |-> self, gen |-> 0, val |-> OStream(fl2.d, fl2.data)], 0)
        IN todo' = <<[items[1] EXCEPT !.nosep = TRUE]>> \o Tail(items) \o Rest
     /\ UNCHANGED <<out, offs, plan, outer, moffs>>
 
 FileNext == ObjectNext \/ ObjHdr \/ StreamData \/ Header \/ RevStart \/ CStart \/ CMember \/ CEnd
-            \/ XrefTable \/ XrefStart \/ TrailerItems \/ StartXref \/ XrefStreamObj
+            \/ XrefTable \/ XrefStart \/ TrailerItems \/ StartXref \/ XrefStreamObj \/ StmStart \/ XRefStmObj
 
 \* the work items of revision r
 RevItems(doc, k, r) ==
@@ -329,7 +426,8 @@ RevItems(doc, k, r) ==
                           <<[w |-> "cend", cnum |-> rev.comp[c].cnum]>>])
     IN <<[w |-> "revstart", r |-> r]>> \o
        Concat([i \in 1..Len(objs) |-> ObjItems(objs[i], 0)]) \o
-       (IF UseComp(k) THEN containers ELSE plainMembers) \o
+       (IF UseComp(k) \/ r \in k.hybrid THEN containers ELSE plainMembers) \o
+       (IF r \in k.hybrid THEN <<[w |-> "markstm"], [w |-> "xrefstm"]>> ELSE <<>>) \o
        <<[w |-> "markxref"]>> \o
        (IF UseComp(k) THEN <<[w |-> "xrefstream"]>> ELSE <<[w |-> "xreftable"], [w |-> "trailer"]>>) \o
        <<[w |-> "startxref"]>>
@@ -340,5 +438,5 @@ FilePlan(doc, k) ==
     <<[w |-> "header"]>> \o
     Concat([r \in 1..Len(doc.revs) |-> RevItems(doc, k, r)])
 
-InitPlan(doc, k) == [doc |-> doc, k |-> k, ri |-> 1, xrefoff |-> 0, prevxref |-> 0, cuts |-> <<>>]
+InitPlan(doc, k) == [doc |-> doc, k |-> k, ri |-> 1, xrefoff |-> 0, prevxref |-> 0, cuts |-> <<>>, stmoff |-> 0]
 =============================================================================
